@@ -31,7 +31,7 @@ from sa.effects import Effects
 from sa.flow import Expander
 from sa.model import walk_no_nested, src, unmangle
 from sa.pat import match, same
-from .clone_common import clone_provenance, find_copy_loops, report_copy_loop, analysis
+from .clone_common import clone_provenance, find_copy_loops, report_copy_loop, copy_idiom_in_reach
 
 # spec side (property text): a Task copy is made "without relations" and reports the NEW owner
 RELATION_STATE = {'_Task__parent', '_Task__children', '_Task__predecessors', '_Task__successors'}
@@ -189,23 +189,21 @@ def _fields(ctx, o):
                 o.undecided(cl, ctor, f"{feed}={src(arg)}", f"cannot show that `{src(arg)}` is the source's value of {unmangle(fld)}")
 
     # ---- generic loop over the public instance attributes
-    loops = [l for l in find_copy_loops(ctx, cl) if isinstance(l.src, ast.Name) and l.src.id == sn]
+    loops = [l for l in find_copy_loops(ctx, cl) if isinstance(l.src_caller, ast.Name) and l.src_caller.id == sn]
     loop_ok = False
     for l in loops:
         fine = report_copy_loop(o, cl, l, "Task attribute")
-        if fine and not (isinstance(l.dst, ast.Name) and l.dst.id == cvar):
+        if fine and not (isinstance(l.dst_caller, ast.Name) and l.dst_caller.id == cvar):
             o.undecided(cl, l.call, l.call, "the attribute copy loop does not write to the task returned by clone")
             fine = False
-        if fine and not cfg.dominates(cfg.node_of(l.for_node), cfg.exit):
-            o.undecided(cl, l.for_node, l.for_node.iter, "the attribute copy loop is not on every path to the return")
+        if fine and not l.on_every_path(cl):
+            o.undecided(l.func, l.for_node, l.for_node.iter, "the attribute copy loop is not on every path to the return")
             fine = False
         if fine:
             loop_ok = True
-            o.site(cl, l.for_node, "for k in self.__dict__: if not k.startswith('_'): copy.__setattr__(k, self.__getattribute__(k))")
+            o.site(l.func, l.for_node, "for k in self.__dict__: if not k.startswith('_'): copy.__setattr__(k, self.__getattribute__(k))")
     if not loops:
-        mentions = any(isinstance(n, ast.Attribute) and n.attr == '__dict__' or isinstance(n, ast.Name) and n.id == 'vars'
-                       for n in walk_no_nested(cl.node))
-        if mentions:
+        if copy_idiom_in_reach(ctx, cl, {'task.Task.__init__'}):
             o.undecided(cl, cl.node, 'attribute copy', "Task.clone copies attributes in an idiom the rule does not recognise")
         else:
             o.refute(cl, cl.node, 'no attribute copy loop', "Task.clone has no loop over self.__dict__: custom attributes (kwargs / "
@@ -227,7 +225,7 @@ def _fields(ctx, o):
         if arg is not None and reads(arg, attr=attr):
             o.site(cl, ctor, f"{attr}: constructor argument {feed}={src(arg)}")
         elif loop_ok:
-            o.site(cl, loops[0].for_node, f"{attr}: public instance attribute, covered by the generic loop")
+            o.site(loops[0].func, loops[0].for_node, f"{attr}: public instance attribute, covered by the generic loop")
         elif loops:
             o.refute(cl, ctor, attr, f"public field `{attr}` of Task.__init__ is neither passed to the constructor in Task.clone nor "
                                      f"copied by an unfiltered loop over the public attributes: the copy keeps the constructor default")
